@@ -56,18 +56,18 @@ def _check(ctx, sc, o, declared, label):
             kinds.append(f"{n}:{'created' if n in o['created'] else 'deleted' if n in o['deleted'] else 'modified'}")
         ctx.violation(f"c19:undeclared-path:{label}:{sc.flag}:{'so' if sc.shared else 'exe'}:{sc.prior}",
                       f"{sc.ident()}: undeclared paths touched: {kinds}",
-                      {"scenario": sc.ident(), "cmd": [C.WILD] + o["args"], "env": o["env"], "paths": kinds, "rc": o["rc"]})
+                      {"scenario": sc.ident(), "cmd": [C.wild_display()] + o["args"], "env": o["env"], "paths": kinds, "rc": o["rc"]})
     if stray:
         ctx.cov["impl_oracle_failures"] += 1
         ctx.violation(f"c19:stray-temporary:{label}", f"{sc.ident()}: temporary left behind: {stray}",
-                      {"scenario": sc.ident(), "cmd": [C.WILD] + o["args"], "env": o["env"], "rc": o["rc"]})
+                      {"scenario": sc.ident(), "cmd": [C.wild_display()] + o["args"], "env": o["env"], "rc": o["rc"]})
     # the temporary's name: hidden sibling `.NAME.wild-old.PID` in the output's directory, never the output itself
     for t in o.get("tmp_names", []):
         m = C.TMP_RE.match(os.path.basename(t))
         if not m or m.group(1) != sc.out_name or os.path.dirname(t) not in ("", "."):
             ctx.cov["impl_oracle_failures"] += 1
             ctx.violation(f"c19:temporary-name-shape:{label}", f"{sc.ident()}: old output moved to {t!r}, expected `.{sc.out_name}.wild-old.<pid>` next to it",
-                          {"scenario": sc.ident(), "cmd": [C.WILD] + o["args"], "name": t})
+                          {"scenario": sc.ident(), "cmd": [C.wild_display()] + o["args"], "name": t})
     # strace path set ⊆ model path set (output, temporary) ∪ declared side files
     d = o["dir"]
     for p in sorted(o["touched"]):
@@ -80,7 +80,7 @@ def _check(ctx, sc, o, declared, label):
             continue
         ctx.cov["impl_oracle_failures"] += 1
         ctx.violation(f"c19:strace-undeclared-path:{label}", f"{sc.ident()}: a mutating system call names {p!r}, not a declared output",
-                      {"scenario": sc.ident(), "cmd": [C.WILD] + o["args"], "path": p})
+                      {"scenario": sc.ident(), "cmd": [C.wild_display()] + o["args"], "path": p})
         break
 
 
@@ -155,7 +155,7 @@ def _named_delete(ctx, inputs):
             if o["rc"] == 0 and o["out"] != "new":
                 ctx.cov["impl_oracle_failures"] += 1
                 ctx.violation("c19:output-named-delete-lost", f"link of `{name}` exited 0 but the output is {o['out']}",
-                              {"cmd": [C.WILD] + o["args"], "rc": o["rc"]})
+                              {"cmd": [C.wild_display()] + o["args"], "rc": o["rc"]})
 
 
 def _concurrent(ctx, inputs):
